@@ -171,7 +171,7 @@ def check_rank_association(db, chk, rule: str) -> None:
             else:
                 res = H.name_id(tgts[0])
                 stores = [t for t, v, s_ in H.assignments(g) if is_store(t) and any(isinstance(n, ast.Name) and n.id == res for n in ast.walk(v))]
-            okk = mk is not None and res is not None and len(stores) >= 2 and all(ast.unparse(t.slice) == mk["__mv_r"] for t in stores)
+            okk = (res is not None and len(stores) >= 2 and all(ast.unparse(t.slice) == mk["__mv_r"] for t in stores)) if mk is not None else None    # another way of naming the file: not understood
             chk.ob(rule, f"{q}: the file parsed is trace_files[r] and its frame/metadata are stored under the same r", okk, tm.loc(c),
                    found={"parsed": ast.unparse(arg) if arg is not None else None, "stored": [ast.unparse(t) for t in stores]}, accepted="parse_trace_file(self.trace_files[r], ...) -> self.traces[r], self.meta_data[r]")
 
@@ -334,6 +334,10 @@ def _derived_views(db, chk) -> None:
                 for srcn in ("sym_table", "sym_index"):
                     if H.match(f"len(self.{srcn}) != len(self.{a})", gnode.test) is not None and any(s_ in gnode.body for t, v, s_ in H.assignments(f) if self_attr(t) in caches):
                         ok = True
+        if not ok:
+            # a guard that only asks whether the view was ever built is positively wrong; any other guard (e.g. a dirty flag) is not understood
+            once = any(isinstance(x, ast.Attribute) and x.attr == "empty" for x in ast.walk(gnode.test)) or any(isinstance(x, ast.Compare) and any(isinstance(o, (ast.Is, ast.IsNot)) for o in x.ops) for x in ast.walk(gnode.test))
+            ok = False if once and len(guards) == 1 else None
         chk.ob(rule, f"{f.name}: the views {stored} are rebuilt unless the table's length equals the view's length (append-only => unchanged)", ok, st.loc(f),
                found=guards or "unconditional", accepted="unconditional, or `if len(self.sym_table) != len(self.<view>)`",
                why="a view built once ('if empty') goes stale after the next add_symbols: names added by a later rank are missing from get_symbol_ids / get_symbol_names")
